@@ -12,6 +12,7 @@ import importlib
 import json
 import os
 import random
+import re
 import sys
 import time
 import traceback
@@ -42,7 +43,11 @@ def build_for(ctx, mod):
     with core.BuildLock():
         ok, out = core.regen()
         ctx.extra["translator"] = out.strip().splitlines()[-12:]
-        if not ok:
+        # a generator that failed closed matters to THIS property only if its Gen file is in the cone of
+        # Props/<id>.v or of the extracted model (decided below, once coqdep has run): a harmless edit that
+        # one translator cannot classify must not alarm properties that never look at that translator
+        failed_gens = re.findall(r"^py2v: (\w+): FAILED CLOSED: (.*)$", out, re.M) if not ok else []
+        if not ok and not failed_gens:
             ctx.obligation_broken("translator", out[-800:])
         hits = core.hygiene()
         if hits:
@@ -56,6 +61,16 @@ def build_for(ctx, mod):
         rc, out, dt = core.make(targets)
         ctx.extra["build_s"] = round(dt, 1)
         files = core.cone(props_v)
+        if failed_gens:
+            mine = set(files)
+            if exname:
+                mine |= set(core.cone(f"Extract/{exname}.v"))
+            uses = getattr(mod, "USES_GEN", [])
+            for name, msg in failed_gens:
+                if f"Gen/{name}.v" in mine or name in uses:
+                    ctx.obligation_broken(f"translator:{name}", msg[:800])
+                else:
+                    ctx.extra.setdefault("translator_failures_outside_cone", []).append(f"{name}: {msg[:200]}")
         n, names = core.count_statements(files)
         ctx.obligations = n
         ctx.stmt_names = names
